@@ -48,6 +48,8 @@ def world():
     w['size'] = z3.Function('size', INT, INT)
     w['TF'] = z3.Function('TF', INT, INT)        # tfdt stored in fragment k of the file
     w['trun_flags'] = z3.Int('trun_flags')
+    w['has_event'], w['traf_modified_by_drm'] = z3.Bool('has_event'), z3.Bool('traf_modified_by_drm')
+    w['stored_base_data_offset'] = z3.Int('stored_base_data_offset')
     w['order_is'] = lambda x, *names: z3.BoolVal(isinstance(x, PyList) and list(x.items) == list(names))
     w['Mof'] = z3.Function('Mof', INT, INT)      # segment index get_segment_index returns (skolem function of its result)
     w['Lof'] = z3.Function('Lof', INT, INT)      # loop index get_segment_index ends in (skolem function of its ghost L)
@@ -494,6 +496,66 @@ def gms(mode, kind, content_type, with_sidx=True, has_tfdt=True):
     )
 
 
+def gms_flags():
+    """C03 (handler part): which deferred fix-ups are armed before the fragment is encoded.  Encrypted video with one
+    event generator that yields one emsg box or none (symbolic) and a DRM hook that inserts a box into the traf or not
+    (symbolic): tfhd.base_data_offset must be cleared (so that it is recomputed when the tfhd is encoded) exactly when the
+    moof moves or changes - an emsg goes in front of it, or the traf was modified; saio.offsets must be cleared exactly
+    when the traf was modified; the emsg boxes sit directly before the moof."""
+    base = gms('vod', 'number', 'video')
+
+    def env(w):
+        e = base.env(w)
+        e['media_file'].f['representation'].f['encrypted'] = True
+        return e
+    m = dict(base.models)
+    inner_load = m['self.load_fragment']
+
+    def load_fragment(eng, e, a, kw):
+        atom = inner_load(eng, e, a, kw)
+        traf = atom.f['moof'].f['traf']
+        traf.f.update(tfhd=Obj('TfhdBox', {'base_data_offset': z3.Int('stored_base_data_offset')}),
+                      saio=Obj('SaioBox', {'offsets': PyList([z3.Int('stored_saio_offset')])}), senc=Obj('SencBox', {}))
+        atom.f['children'] = PyList(['styp', 'sidx', 'moof', 'mdat'])
+        return atom
+
+    def create_emsg_boxes(eng, e, a, kw):
+        return PyList(['emsg']) if eng.branch(z3.Bool('has_event')) else PyList([])
+
+    def encode(eng, e, a, kw):
+        atom = eng.eval(e.func.value)
+        traf = atom.f['moof'].f['traf']
+        off = traf.f['saio'].f['offsets']
+        a[0].snapshot = Obj('EncodedSegment', {
+            'children': atom.f['children'], 'tfhd_base': traf.f['tfhd'].f['base_data_offset'],
+            'saio_cleared': off is None, 'sequence_number': atom.f['moof'].f['mfhd'].f['sequence_number'],
+            '__len__': fresh('encoded_len')})
+    m.update({
+        'self.load_fragment': load_fragment, 'atom.encode': encode,
+        'EventFactory.create_event_generators': lambda eng, e, a, kw: PyList([Obj('EventGenerator', {})]),
+        'evgen.create_emsg_boxes': create_emsg_boxes,
+        'atom.index': lambda eng, e, a, kw: eng.eval(e.func.value).f['children'].items.index(a[0]),
+        'atom.children.insert': lambda eng, e, a, kw: eng.eval(e.func.value.value).f['children'].items.insert(a[0], a[1]),
+        'self.update_traf_if_required': lambda eng, e, a, kw: z3.Bool('traf_modified_by_drm'),
+    })
+    return Contract(
+        key=base.key, variant='fixups-encrypted-video-events', props=['C03', 'C16'], env=env,
+        requires=[('rep_valid', 'rep_valid'), ('region_served', 'sn <= seg_num and seg_num <= sn + n - 1')],
+        models=m, ctors=base.ctors,
+        ensures=[('served', 'result.status == 200'),
+                 ('tfhd_base_cleared_iff_moof_moves', 'is_none(result.data.tfhd_base) == (has_event or traf_modified_by_drm)'),
+                 ('tfhd_base_kept_otherwise', 'True if (has_event or traf_modified_by_drm) else result.data.tfhd_base == stored_base_data_offset'),
+                 ('saio_cleared_iff_traf_modified', 'result.data.saio_cleared == traf_modified_by_drm'),
+                 ('emsg_directly_before_moof', "order_is(result.data.children, 'styp', 'sidx', 'emsg', 'moof', 'mdat') if has_event "
+                                               "else order_is(result.data.children, 'styp', 'sidx', 'moof', 'mdat')")],
+        canaries=['is_none(result.data.tfhd_base)'],
+        witness_terms=lambda w: (lambda ev: dict(witness(('seg_num', 'stored_seq', 'stored_base_data_offset'))(w)(ev),
+                                                 has_event=ev(z3.Bool('has_event')), traf_modified_by_drm=ev(z3.Bool('traf_modified_by_drm')))),
+    )
+
+
+GMS_FLAGS = gms_flags()
+
 GMS = [gms('live', 'number', 'audio'), gms('live', 'time', 'video'), gms('vod', 'number', 'video', with_sidx=False),
        gms('vod', 'time', 'audio'), gms('live', 'time', 'audio', has_tfdt=False), gms('vod', 'number', 'audio', has_tfdt=False)]
 
@@ -815,7 +877,7 @@ GROUP = Group(
     world=world,
     contracts=[MEDIA_DURATION_USING_TIMESCALE, GET_SEGMENT_INDEX, CALC_SEGMENT_FROM_TIMECODE, TIMESCALE_TO_TIMEDELTA,
                FL_LIVE, FL_VOD, SNT_LIVE_NUMBER, SNT_LIVE_TIME, SNT_VOD_NUMBER, SNT_VOD_TIME] + MSI +
-              [GENERATE_SEGMENT_LIST, timeline('live'), timeline('vod')] + GMS,
+              [GENERATE_SEGMENT_LIST, timeline('live'), timeline('vod')] + GMS + [GMS_FLAGS],
     lemmas=[
         Lemma('time_exact', ['C02'], lemma_time_exact),
         Lemma('prefix_step', ['C02'], lemma_prefix_monotone),
